@@ -44,6 +44,8 @@ theorem entry_persists_step (key : Call → K) (eval : Call → V) (hkey : ∀ c
         subst this; subst hv; subst hk
         simp [publish]
       · exact mem_publish_of_ne hm hk)
+  · split at h <;> try (cases h; done)
+    cases h; exact hm
 
 /-- … along any run (any number of workers and calls), and across sessions (a session starts from
     the directory the previous one left). -/
